@@ -1,0 +1,100 @@
+// Verification hooks (cargo feature `verif-hooks`): a public wrapper around `ReplicationFetcher`
+// with state snapshots and virtual time (deadlines are kept as real `Instant`s). Purely additive.
+
+use super::*;
+
+pub struct VerifFetcher(ReplicationFetcher);
+
+impl VerifFetcher {
+    pub fn new(self_peer_id: PeerId, event_sender: mpsc::Sender<NetworkEvent>) -> Self {
+        Self(ReplicationFetcher::new(self_peer_id, event_sender))
+    }
+
+    pub fn set_replication_distance_range(&mut self, distance_range: U256) {
+        self.0.set_replication_distance_range(distance_range)
+    }
+
+    pub fn add_keys(
+        &mut self,
+        holder: PeerId,
+        incoming_keys: Vec<(NetworkAddress, RecordType)>,
+        locally_stored_keys: &HashMap<RecordKey, (NetworkAddress, RecordType)>,
+    ) -> Vec<(PeerId, RecordKey)> {
+        self.0.add_keys(holder, incoming_keys, locally_stored_keys)
+    }
+
+    pub fn set_farthest_on_full(&mut self, farthest_in: Option<RecordKey>) {
+        self.0.set_farthest_on_full(farthest_in)
+    }
+
+    pub fn notify_about_new_put(
+        &mut self,
+        new_put: RecordKey,
+        record_type: RecordType,
+    ) -> Vec<(PeerId, RecordKey)> {
+        self.0.notify_about_new_put(new_put, record_type)
+    }
+
+    pub fn notify_fetch_early_completed(
+        &mut self,
+        key_in: RecordKey,
+        record_type: RecordType,
+    ) -> Vec<(PeerId, RecordKey)> {
+        self.0.notify_fetch_early_completed(key_in, record_type)
+    }
+
+    pub fn next_keys_to_fetch(&mut self) -> Vec<(PeerId, RecordKey)> {
+        self.0.next_keys_to_fetch()
+    }
+
+    pub fn max_parallel_fetch() -> usize {
+        MAX_PARALLEL_FETCH
+    }
+
+    pub fn fetch_timeout() -> Duration {
+        FETCH_TIMEOUT
+    }
+
+    pub fn pending_timeout() -> Duration {
+        PENDING_TIMEOUT
+    }
+}
+
+impl ReplicationFetcher {
+    /// (key, type, holder) of every queued entry
+    pub(crate) fn verif_to_be_fetched(&self) -> Vec<(RecordKey, RecordType, PeerId)> {
+        self.to_be_fetched.keys().cloned().collect()
+    }
+
+    /// (key, type, holder) of every in-flight fetch
+    pub(crate) fn verif_on_going_fetches(&self) -> Vec<(RecordKey, RecordType, PeerId)> {
+        self.on_going_fetches
+            .iter()
+            .map(|((k, t), (p, _))| (k.clone(), t.clone(), *p))
+            .collect()
+    }
+
+    /// Virtual time: move every stored deadline `by` closer (as if `by` had elapsed).
+    pub(crate) fn verif_age(&mut self, by: Duration) {
+        for deadline in self.to_be_fetched.values_mut() {
+            *deadline = deadline.checked_sub(by).unwrap_or(*deadline);
+        }
+        for (_, deadline) in self.on_going_fetches.values_mut() {
+            *deadline = deadline.checked_sub(by).unwrap_or(*deadline);
+        }
+    }
+}
+
+impl VerifFetcher {
+    pub fn to_be_fetched(&self) -> Vec<(RecordKey, RecordType, PeerId)> {
+        self.0.verif_to_be_fetched()
+    }
+
+    pub fn on_going_fetches(&self) -> Vec<(RecordKey, RecordType, PeerId)> {
+        self.0.verif_on_going_fetches()
+    }
+
+    pub fn age(&mut self, by: Duration) {
+        self.0.verif_age(by)
+    }
+}
